@@ -123,6 +123,23 @@ def run(ck, prog, ctx):
             at = pv.of_operand(sb, s.rv["op"]) if s.rv["k"] == "use" else frozenset()
             ps = params_of(at, sb.id)
             ck.ob("ROLE", "setter/%s/value" % setter, {2, 3} <= ps, "%s stores a value computed from both `total` and `current`" % setter if {2, 3} <= ps else "%s stores a value that does not depend on both arguments (params %s)" % (setter, sorted(ps)), where=sb.where(s.line))
+        # a failure of the computation is the setter's failure: the stored value reaches the field through `?` alone (no default in
+        # place of the error), and the error alternative of the setter's result comes from the computation
+        pvs = Prov(prog, inline=False)
+        for s in writes:
+            if s.rv["k"] != "use":
+                continue
+            at = pvs.of_operand(sb, s.rv["op"])
+            steps = sorted({a[1].rsplit("::", 1)[-1] for a in at if a[0] == "call" and a[3] == sb.id and not (a[2] in prog.bodies or a[1] in prog.bodies)})
+            swallow = [m for m in steps if m in ("unwrap_or_default", "unwrap_or", "unwrap_or_else", "ok", "or", "or_else", "map_or", "map_or_else", "is_ok", "is_err", "unwrap", "expect")]
+            crate_calls = [a for a in at if a[0] == "call" and a[3] == sb.id and (a[2] in prog.bodies or a[1] in prog.bodies)]
+            if not crate_calls:
+                continue
+            ret_err = pvs.of_return(sb, (("errval",),))
+            propagated = any(a[0] == "call" and a[3] == sb.id and (a[2] in prog.bodies or a[1] in prog.bodies) for a in ret_err)
+            okp = not swallow and propagated
+            ck.ob("ROLE", "setter/%s/error" % setter, okp, "%s %s" % (setter, "stores the computed value only when the computation succeeds and returns its error otherwise" if okp else
+                  ("replaces a failed computation by a default (`%s`): the term keeps IC 0 and the caller sees success" % swallow[0] if swallow else "does not return the error of the computation")), where=sb.where(s.line))
         if calc is not None:
             for bi, t in sb.calls():
                 if t.callee.res == calc.id and len(t.args) == 2:
@@ -220,3 +237,7 @@ def run(ck, prog, ctx):
     ck.rule("GETTER", "an accessor `f()` / `f_mut()` of a struct with a field `f` (or its documented alias) derives its result from that field (DESIGN 3.9)")
     from engines import check_getters
     check_getters(ck, "GETTER", prog, r"^src/term/information_content\.rs$", floor=3)
+    # failures of fallible crate functions are propagated or asserted, never turned into success
+    ck.rule("ERR", "every call of a crate function returning Result<_, HpoError> propagates the error (`?` / return / match), panics on it (unwrap / expect), or is a listed documented exception; none replaces it by a default")
+    from engines import check_error_discipline
+    check_error_discipline(ck, "ERR", prog, r"^src/term/information_content\.rs$|^src/ontology/builder\.rs$", allowed=[(r"^Ontology::hpo$", r"try_new$", "documented: Ontology::hpo answers None for an id that is not in the ontology")], floor=3)
